@@ -313,7 +313,10 @@ class Array:
         """Insert a new element into the Array at position i.
 
         """
-        i = min(i, len(self))  # Inserting beyond len of array inserts at the end (copying standard behaviour)
+        n = len(self)
+        if i < 0:
+            i = max(i + n, 0)  # Negative positions count from the end of the items, and stop at the start
+        i = min(i, n)  # Inserting beyond len of array inserts at the end (copying standard behaviour)
         self.data.insert(self._create_element(x), i * self._dtype.bitlength)
 
     def pop(self, i: int = -1) -> ElementType:
